@@ -73,7 +73,7 @@ fn gen_doc(rng: &mut Rng, depth: usize, out: &mut String) {
     let ws = |rng: &mut Rng, out: &mut String| { for _ in 0..rng.below(3) { out.push(*rng.pick(&[' ', ' ', '\n', '\t', '\r'])); } };
     match if depth == 0 { rng.below(4) } else { rng.below(7) } {
         0 => out.push_str(*rng.pick(&["0", "-0", "1", "12", "-3.25", "1e9", "2E-3", "0.5e+10", "1234567890", "-1.0"][..])),
-        1 => { out.push('"'); for _ in 0..rng.below(5) { out.push_str(*rng.pick(&["a", "é", "嗨", "\\n", "\\\"", "\\\\", "\\/", "\\u00e9", "\\uD800", " ", "\u{7f}", "💖", "\\b\\f\\r\\t"][..])); } out.push('"'); }
+        1 => { out.push('"'); for _ in 0..rng.below(5) { out.push_str(*rng.pick(&["a", "é", "嗨", "Ā", "一", "ı", "İ", "\u{2028}", "\u{10000}", "\\n", "\\\"", "\\\\", "\\/", "\\u00e9", "\\uD800", " ", "\u{7f}", "💖", "\\b\\f\\r\\t"][..])); } out.push('"'); }
         2 => out.push_str(*rng.pick(&["true", "false", "null"][..])),
         3 => out.push_str(*rng.pick(&["[]", "{}", "[ ]", "{ }"][..])),
         4 | 5 => { out.push('['); ws(rng, out); let n = rng.range(1, 3); for i in 0..n { if i > 0 { ws(rng, out); out.push(','); ws(rng, out); } gen_doc(rng, depth - 1, out); } ws(rng, out); out.push(']'); }
@@ -97,7 +97,9 @@ fn main() {
             for _ in 0..len { let mut next = vec![]; for s in &layer { for a in &alpha[..k] { next.push(format!("{}{}", s, a)); } } all.extend(next.iter().cloned()); layer = next; }
             let exhaustive = all.len();
             // near-misses and documents
-            let near = ["01", "-", "+1", "1.", ".5", "1e", "1e+", "1.e1", "00", "-01", "[1,]", "[,1]", "{\"a\":1,}", "{\"a\"}", "{a:1}", "{\"a\":}", "[1 2]", "\"\t\"", "\"\\x41\"", "\"\\u12\"", "\"\\u12G4\"", "\"abc", "tru", "nul", "truee", "nullx", "[", "]", "{", "}", "\"\\\"", "1 2", "[1]]", "{\"a\":1}}", "\u{feff}1", "1\u{a0}", "'a'", "NaN", "Infinity", "-Infinity", "0x10", "1_000", "\"\u{0}\"", "\"\u{1f}\"", "\"\u{7f}\"", "[\"\\ud800\"]", " \n\r\t1\t\r\n ", "\"\\u000A\"", "1E400", "-0.0e-0", "[[[[[[[[[[]]]]]]]]]]", "{\"a\":{\"b\":{\"c\":[]}}}"];
+            let near = ["01", "-", "+1", "1.", ".5", "1e", "1e+", "1.e1", "00", "-01", "[1,]", "[,1]", "{\"a\":1,}", "{\"a\"}", "{a:1}", "{\"a\":}", "[1 2]", "\"\t\"", "\"\\x41\"", "\"\\u12\"", "\"\\u12G4\"", "\"abc", "tru", "nul", "truee", "nullx", "[", "]", "{", "}", "\"\\\"", "1 2", "[1]]", "{\"a\":1}}", "\u{feff}1", "1\u{a0}", "'a'", "NaN", "Infinity", "-Infinity", "0x10", "1_000", "\"\u{0}\"", "\"\u{1f}\"", "\"\u{7f}\"", "[\"\\ud800\"]", " \n\r\t1\t\r\n ", "\"\\u000A\"", "1E400", "-0.0e-0", "[[[[[[[[[[]]]]]]]]]]", "{\"a\":{\"b\":{\"c\":[]}}}",
+                // non-ASCII characters whose low byte is an ASCII digit, hex digit or control code; characters of every UTF-8 length
+                "\"一\"", "[\"Ā\"]", "{\"名\": \"東京\"}", "1ı", "\"\\u00İ0\"", "１", "[１]", "\"\u{10000}\"", "\"\u{1F600}\"", "\"\u{E0041}\"", "tru\u{FF45}", "\u{2003}1", "１.5", "-１"];
             for n in near { all.push(n.to_string()); }
             let ndocs = if thorough { 60000 } else { 6000 };
             for _ in 0..ndocs { let mut s = String::new(); if rng.chance(1, 3) { s.push(' '); } let d = rng.range(0, 4); gen_doc(&mut rng, d, &mut s); if rng.chance(1, 4) { s.push('\n'); }
